@@ -53,23 +53,23 @@ Lemma child_ok_fresh lo ty : child_ok lo (fresh ty).
 Proof. unfold child_ok, fresh; cbn. repeat split; try discriminate; auto; unfold CONNECTING; lia. Qed.
 
 Lemma start_child_spec lo t c : child_ok lo c -> started c = false -> lo <= t + initTimeout ->
-  let c' := start_child t c in
+  let c' := start_child_nf t c in
   child_ok lo c' /\ started c' = true /\ good c' = true /\
   cstate c' = cstate c /\ picker c' = picker c.
 Proof.
   intros [H1 [H2 [H3 H4]]] Hs Hlo. destruct (H1 Hs) as [Hc [Hp [Ht Htm]]].
-  unfold start_child. rewrite Hs. unfold start_timer; cbn. rewrite Htm. cbn.
+  unfold start_child_nf. rewrite Hs. unfold start_timer; cbn. rewrite Htm. cbn.
   unfold child_ok, good; cbn. rewrite Hc. cbn.
   repeat split; try discriminate; auto; try (unfold CONNECTING; lia).
   intros d [= <-]. exact Hlo.
 Qed.
 
-(* ---------- what sync may do to a child ---------- *)
+(* ---------- what sync_nf may do to a child ---------- *)
 
 Inductive cstep (t : Z) : option child -> option child -> Prop :=
 | cs_same o : cstep t o o
 | cs_stop c : cstep t (Some c) (Some (stop_child c))
-| cs_start c : started c = false -> cstep t (Some c) (Some (start_child t c)).
+| cs_start c : started c = false -> cstep t (Some c) (Some (start_child_nf t c)).
 
 Lemma cstep_ok lo t o c' : lo <= t + initTimeout -> cstep t o (Some c') ->
   (forall c, o = Some c -> child_ok lo c) -> child_ok lo c'.
@@ -114,7 +114,7 @@ Lemma switch_spec lo st u name pre r c :
   children st name = Some c ->
   eligible c (match r with [] => true | _ => false end) = true ->
   let st1 := if negb (inuse st =? name) || (name =? u) then emit st (cstate c) (picker c) else st in
-  let st' := switch_to st1 name r in
+  let st' := switch_to_nf st1 name r in
   Inv lo st' /\ now st' = now st /\ prios st' = prios st /\
   (forall m, cstep (now st) (children st m) (children st' m)).
 Proof.
@@ -151,8 +151,8 @@ Proof.
     assert (Hin : In n (prios st)) by (rewrite Hp; apply in_or_app; right; right; exact Hn).
     apply Hdom in Hin. destruct (children st n) as [cn|]; [|congruence].
     exists (stop_child cn). split; [reflexivity | apply stop_started]. }
-  (* final children *)
-  unfold st', switch_to. fold ch2. cbn [children set_children]. rewrite Hch2name.
+  (* final_nf children *)
+  unfold st', switch_to_nf. fold ch2. cbn [children set_children]. rewrite Hch2name.
   assert (Hgood_or : started c = true -> good c = true \/ r = []).
   { intros Hs. unfold eligible in Hel. rewrite Hs in Hel. cbn in Hel. unfold good.
     destruct r; [right; reflexivity | left]. rewrite orb_false_r in Hel. exact Hel. }
@@ -184,9 +184,9 @@ Proof.
     + (* not started: start it *)
       destruct (start_child_spec lo (now st) c (Hok _ _ Hc) Hs Hlo) as [Ok' [Hs' [Hg' [Hcs' Hpk']]]].
       cbn [children set_children set_inuse now].
-      assert (Hupd : forall m, m <> name -> upd ch2 name (start_child (now st1) c) m = ch2 m).
+      assert (Hupd : forall m, m <> name -> upd ch2 name (start_child_nf (now st1) c) m = ch2 m).
       { intros m Hm. unfold upd. apply Z.eqb_neq in Hm. rewrite Hm. reflexivity. }
-      assert (Hupdn : upd ch2 name (start_child (now st1) c) name = Some (start_child (now st) c)).
+      assert (Hupdn : upd ch2 name (start_child_nf (now st1) c) name = Some (start_child_nf (now st) c)).
       { unfold upd. rewrite Z.eqb_refl, Hnow1. reflexivity. }
       split; [|cbn; repeat split; auto].
       constructor; cbn.
@@ -200,7 +200,7 @@ Proof.
            ++ rewrite <- Hn. apply Hch2.
            ++ intros; eapply Hok; eauto.
       * rewrite Hcl1, Hcl. discriminate.
-      * intros _ _. exists pre, r, (start_child (now st) c). cbn. rewrite Hpr1, Hupdn.
+      * intros _ _. exists pre, r, (start_child_nf (now st) c). cbn. rewrite Hpr1, Hupdn.
         repeat split; auto.
         -- rewrite Hcs', Hpk'. exact Hpar.
         -- intros n Hn. assert (n <> name) by (intro; subst; contradiction).
@@ -228,12 +228,12 @@ Lemma scan_spec lo u : forall l pre st,
   closed st = false ->
   pre_ok st pre ->
   parent_pre st u ->
-  let st' := sync_scan st u l in
+  let st' := sync_scan_nf st u l in
   Inv lo st' /\ now st' = now st /\ prios st' = prios st /\
   (forall m, cstep (now st) (children st m) (children st' m)).
 Proof.
   induction l as [|name r IH]; intros pre st Hp Hne Hnd Hdom Hok Hlo Hcl Hpre Hpp; [congruence|].
-  cbn [sync_scan].
+  cbn [sync_scan_nf].
   assert (Hin : In name (prios st)) by (rewrite Hp; apply in_or_app; right; left; reflexivity).
   apply Hdom in Hin. destruct (children st name) as [c|] eqn:Hc; [|congruence].
   destruct (eligible c match r with [] => true | _ :: _ => false end) eqn:Hel.
@@ -255,11 +255,11 @@ Lemma sync_spec lo u st :
   lo <= now st + initTimeout ->
   closed st = false ->
   parent_pre st u ->
-  let st' := sync st u in
+  let st' := sync_nf st u in
   Inv lo st' /\ now st' = now st /\ prios st' = prios st /\
   (forall m, cstep (now st) (children st m) (children st' m)).
 Proof.
-  intros Hne Hnd Hdom Hok Hlo Hcl Hpp st'. unfold st', sync.
+  intros Hne Hnd Hdom Hok Hlo Hcl Hpp st'. unfold st', sync_nf.
   apply (scan_spec lo u (prios st) [] st); auto.
   intros n Hn; destruct Hn.
 Qed.
@@ -288,12 +288,12 @@ Proof.
   rewrite Hc in Hc0. injection Hc0 as <-. exact Hp.
 Qed.
 
-Lemma sync_scan_closed : forall l st u, closed (sync_scan st u l) = closed st.
+Lemma sync_scan_closed : forall l st u, closed (sync_scan_nf st u l) = closed st.
 Proof.
   induction l as [|a r IH]; intros st u; cbn; [reflexivity|].
   destruct (children st a) as [c|]; [|apply IH].
   destruct (eligible c _); [|apply IH].
-  unfold switch_to. cbn.
+  unfold switch_to_nf. cbn.
   destruct (negb (inuse st =? a) || (a =? u)); cbn;
   destruct (stop_names (children st) r a) as [c0|]; cbn; try reflexivity;
   destruct (_ && started c0); cbn; try reflexivity; destruct (started c0); reflexivity.
@@ -303,10 +303,10 @@ Qed.
 
 Lemma child_update_spec lo st name s pk :
   Inv lo st -> closed st = false -> lo <= now st + initTimeout -> 0 <= s <= 3 ->
-  let st' := child_update st name s pk in
+  let st' := child_update_nf st name s pk in
   Inv lo st' /\ now st' = now st /\ prios st' = prios st /\ closed st' = false.
 Proof.
-  intros HI Hcl Hlo Hs st'. unfold st', child_update.
+  intros HI Hcl Hlo Hs st'. unfold st', child_update_nf.
   destruct (children st name) as [c|] eqn:Hc; [|auto].
   destruct (started c) eqn:Hst; cbn [negb]; [|auto].
   set (c1 := if (s =? READY) || (s =? IDLE) then mkchild true s pk false None (btype c)
@@ -348,7 +348,7 @@ Proof.
   - intros c0 Hc0 Hneq. cbn [inuse st1 set_children] in *. rewrite (Hupd _ Hneq) in Hc0.
     exact (selected_parent_pre st name Hsel Hcl Hne c0 Hc0 Hneq).
   - split; [exact HI'|]. split; [exact Hn'|]. split; [exact Hp'|].
-    unfold sync. rewrite sync_scan_closed. exact Hcl.
+    unfold sync_nf. rewrite sync_scan_closed. exact Hcl.
 Qed.
 
 (* ---------- UpdateClientConnState ---------- *)
@@ -371,11 +371,11 @@ Proof.
 Qed.
 
 Lemma config_spec lo K st l :
-  Inv lo st -> closed st = false -> lo <= now st + initTimeout -> valid_config K l = true ->
-  let st' := config st l in
+  Inv lo st -> closed st = false -> lo <= now st + initTimeout -> valid_config_nf K l = true ->
+  let st' := config_nf st l in
   Inv lo st' /\ now st' = now st /\ closed st' = false.
 Proof.
-  intros HI Hcl Hlo Hv st'. unfold st', config.
+  intros HI Hcl Hlo Hv st'. unfold st', config_nf.
   set (ch := fun m => match assoc m l with
     | None => None
     | Some ty => match children st m with
@@ -406,7 +406,7 @@ Proof.
   - destruct (sync_spec lo (inuse st1) st1) as [HI' [Hn' [Hp' _]]]; auto.
     + cbn. discriminate.
     + intros c _ Hneq. congruence.
-    + split; [exact HI'|]. split; [exact Hn'|]. unfold sync. rewrite sync_scan_closed. exact Hcl.
+    + split; [exact HI'|]. split; [exact Hn'|]. unfold sync_nf. rewrite sync_scan_closed. exact Hcl.
 Qed.
 
 (* ---------- Close ---------- *)
@@ -438,7 +438,7 @@ Proof.
   intros H Hd. inversion H; subst.
   - left. eauto.
   - unfold stop_child in Hd. destruct (started c) eqn:E; [discriminate|]. left; eauto.
-  - unfold start_child in Hd. rewrite H2 in Hd. unfold start_timer in Hd. cbn in Hd.
+  - unfold start_child_nf in Hd. rewrite H2 in Hd. unfold start_timer in Hd. cbn in Hd.
     destruct (timer c) eqn:E; cbn in Hd.
     + left. exists c. split; [reflexivity | congruence].
     + right. congruence.
@@ -446,10 +446,10 @@ Qed.
 
 Lemma fire_all_spec : forall l st,
   Inv (now st) st -> closed st = false -> due_in st l ->
-  let st' := fire_all st l in
+  let st' := fire_all_nf st l in
   Inv (now st + 1) st' /\ now st' = now st /\ closed st' = false.
 Proof.
-  induction l as [|n r IH]; intros st HI Hcl Hdue; cbn [fire_all].
+  induction l as [|n r IH]; intros st HI Hcl Hdue; cbn [fire_all_nf].
   - split; [|auto]. destruct HI as [Hnd Hdom Hok Hclosed Hsel]. constructor; auto.
     intros m c Hc. destruct (Hok m c Hc) as [A [B [C D]]].
     split; [exact A | split; [exact B | split; [exact C |]]].
@@ -459,7 +459,7 @@ Proof.
   - set (st1 := match children st n with
       | Some c => match timer c with
         | Some d => if d =? now st then
-            sync (set_children st (upd (children st) n
+            sync_nf (set_children st (upd (children st) n
               (mkchild (started c) (cstate c) (picker c) (tf c) None (btype c)))) (-1) else st
         | None => st end
       | None => st end).
@@ -499,7 +499,7 @@ Proof.
           apply Hpp; [exact Hc | rewrite <- E; exact Hneq].
         + rewrite (Hupd _ E) in Hc0. exact (selected_parent_pre st (-1) Hsel Hcl Hne c0 Hc0 Hneq).
       - cbn [now st0 set_children] in *. rewrite Hn'. split; [exact HI'|].
-        split; [unfold sync; rewrite sync_scan_closed; exact Hcl|]. split; [|reflexivity].
+        split; [unfold sync_nf; rewrite sync_scan_closed; exact Hcl|]. split; [|reflexivity].
         intros m cm Hm Htm. rewrite Hn' in Htm.
         pose proof (Hfr m) as Hfm. rewrite Hm in Hfm.
         destruct (cstep_timer _ _ _ _ Hfm Htm) as [[c0 [Hc0 Ht0]] | Hbad].
@@ -512,9 +512,9 @@ Proof.
 Qed.
 
 Lemma tick_spec st : Inv (now st + 1) st -> closed st = false ->
-  let st' := tick st in Inv (now st' + 1) st' /\ closed st' = false.
+  let st' := tick_nf st in Inv (now st' + 1) st' /\ closed st' = false.
 Proof.
-  intros HI Hcl. unfold tick.
+  intros HI Hcl. unfold tick_nf.
   set (st1 := mkst (now st + 1) (closed st) (inuse st) (prios st) (children st) (parent st) (out st)).
   assert (HI1 : Inv (now st1) st1).
   { destruct HI as [Hnd Hdom Hok Hclosed Hsel]. constructor; auto. }
@@ -524,7 +524,7 @@ Proof.
 Qed.
 
 Lemma sleep_spec : forall d st, Inv (now st + 1) st -> closed st = false ->
-  let st' := sleep d st in Inv (now st' + 1) st' /\ closed st' = false.
+  let st' := sleep_nf d st in Inv (now st' + 1) st' /\ closed st' = false.
 Proof.
   induction d as [|d IH]; intros st HI Hcl; cbn; [auto|].
   destruct (tick_spec st HI Hcl) as [A B]. apply IH; assumption.
@@ -537,9 +537,9 @@ Lemma Inv_out lo st o :
 Proof. intros [H1 H2 H3 H4 H5]. constructor; auto. Qed.
 
 Lemma step_inv K st op : Inv (now st + 1) st ->
-  let st' := step K st op in Inv (now st' + 1) st'.
+  let st' := step_nf K st op in Inv (now st' + 1) st'.
 Proof.
-  intros HI. unfold step.
+  intros HI. unfold step_nf.
   set (st0 := mkst (now st) (closed st) (inuse st) (prios st) (children st) (parent st) []).
   assert (HI0 : Inv (now st0 + 1) st0) by (apply Inv_out; exact HI).
   destruct (closed st) eqn:Hcl; [exact HI0|].
@@ -548,7 +548,7 @@ Proof.
   destruct op as [|k r]; [exact HI0|].
   destruct (Z.eq_dec k 1) as [-> | N1].
   { destruct (pairs r) as [l|]; [|exact HI0].
-    destruct (valid_config K l) eqn:Hv; [|exact HI0].
+    destruct (valid_config_nf K l) eqn:Hv; [|exact HI0].
     destruct (config_spec (now st0 + 1) K st0 l HI0 Hcl0 Hlo Hv) as [A [B C]].
     cbn zeta. rewrite B. exact A. }
   destruct (Z.eq_dec k 2) as [-> | N2].
@@ -567,13 +567,13 @@ Proof.
   do 3 (destruct k as [k|k|]; try exact HI0; try congruence).
 Qed.
 
-Lemma final_inv K : forall ops st, Inv (now st + 1) st -> Inv (now (final K st ops) + 1) (final K st ops).
+Lemma final_inv K : forall ops st, Inv (now st + 1) st -> Inv (now (final_nf K st ops) + 1) (final_nf K st ops).
 Proof.
   induction ops as [|op r IH]; intros st HI; cbn; [exact HI|].
   apply IH. apply step_inv. exact HI.
 Qed.
 
-Lemma reach_inv K ops : Inv (now (final K init ops) + 1) (final K init ops).
+Lemma reach_inv K ops : Inv (now (final_nf K init ops) + 1) (final_nf K init ops).
 Proof. apply final_inv. apply Inv_init. Qed.
 
 (* ---------- list facts about before / after ---------- *)
@@ -652,7 +652,7 @@ Proof.
 Qed.
 
 (* the full reading of the state after any op list *)
-Lemma selection_reading K ops : let st := final K init ops in
+Lemma selection_reading K ops : let st := final_nf K init ops in
   closed st = false -> prios st <> [] ->
   exists pre post c,
     prios st = pre ++ inuse st :: post /\ NoDup (prios st) /\
@@ -681,7 +681,7 @@ Qed.
 Lemma upd_sync_spec lo st name c c1 :
   Inv lo st -> closed st = false -> lo <= now st + initTimeout ->
   children st name = Some c -> child_ok lo c1 ->
-  let st' := sync (set_children st (upd (children st) name c1)) name in
+  let st' := sync_nf (set_children st (upd (children st) name c1)) name in
   Inv lo st' /\ prios st' = prios st /\
   cstep (now st) (Some c1) (children st' name).
 Proof.
@@ -718,18 +718,18 @@ Qed.
 Lemma child_update_ready lo st name pk c :
   Inv lo st -> closed st = false -> lo <= now st + initTimeout ->
   children st name = Some c -> started c = true ->
-  let st' := child_update st name READY pk in
+  let st' := child_update_nf st name READY pk in
   forall m, In m (after name (prios st')) -> is_started st' m = false.
 Proof.
-  intros HI Hcl Hlo Hc Hs st' m Hm. unfold st', child_update in *. rewrite Hc, Hs in *. cbn [negb] in *.
+  intros HI Hcl Hlo Hc Hs st' m Hm. unfold st', child_update_nf in *. rewrite Hc, Hs in *. cbn [negb] in *.
   change ((READY =? READY) || (READY =? IDLE)) with true in *. cbv iota in *.
   set (c1 := mkchild true READY pk false None (btype c)) in *.
   assert (Hok1 : child_ok lo c1).
   { unfold c1, child_ok, READY, CONNECTING; cbn. repeat split; try discriminate; auto; lia. }
   destruct (upd_sync_spec lo st name c c1 HI Hcl Hlo Hc Hok1) as [HI' [Hp' Hfr]].
-  set (st2 := sync (set_children st (upd (children st) name c1)) name) in *.
+  set (st2 := sync_nf (set_children st (upd (children st) name c1)) name) in *.
   destruct HI' as [Hnd' Hdom' Hok' Hclosed' Hsel'].
-  assert (Hcl' : closed st2 = false) by (unfold st2, sync; rewrite sync_scan_closed; exact Hcl).
+  assert (Hcl' : closed st2 = false) by (unfold st2, sync_nf; rewrite sync_scan_closed; exact Hcl).
   assert (Hin : In name (prios st2)).
   { rewrite Hp'. destruct HI as [_ Hdom _ _ _]. apply Hdom. congruence. }
   assert (Hne : prios st2 <> []) by (intro E; rewrite E in Hin; contradiction).
@@ -754,7 +754,7 @@ Proof.
     apply after_sub in Hm. destruct (Hpost m Hm) as [c' [Hc' Hs']]. congruence.
 Qed.
 
-(* ---------- the clauses hold on every model trace ---------- *)
+(* ---------- the clauses_nf hold on every model trace ---------- *)
 
 Lemma names_In K n : In n (names K) <-> 0 <= n < K.
 Proof.
@@ -783,11 +783,11 @@ Proof.
   - rewrite map_length. pose proof (names_length K HK). lia.
 Qed.
 
-Lemma step_closed_false K st op : closed (step K st op) = false -> closed st = false.
-Proof. unfold step. destruct (closed st) eqn:E; [cbn; auto | auto]. Qed.
+Lemma step_closed_false K st op : closed (step_nf K st op) = false -> closed st = false.
+Proof. unfold step_nf. destruct (closed st) eqn:E; [cbn; auto | auto]. Qed.
 
 Lemma clause_op_true K st op i : 0 <= K -> Inv (now st + 1) st ->
-  let st' := step K st op in
+  let st' := step_nf K st op in
   forallb (fun c => snd c) (clause_op K st st' (obs_of K st) op (obs_of K st') i) = true.
 Proof.
   intros HK HI st'. pose proof (step_inv K st op HI) as HI'. fold st' in HI'.
@@ -858,8 +858,8 @@ Proof.
     replace (is_started st' m) with false; [reflexivity|]. symmetry.
     unfold is_started in Est. destruct (children st n) as [cn|] eqn:Hcn; [|discriminate].
     set (st0 := mkst (now st) (closed st) (inuse st) (prios st) (children st) (parent st) []).
-    assert (E : st' = child_update st0 n READY pk).
-    { unfold st', step, st0. rewrite Hcl0. reflexivity. }
+    assert (E : st' = child_update_nf st0 n READY pk).
+    { unfold st', step_nf, st0. rewrite Hcl0. reflexivity. }
     rewrite E in Hm |- *.
     apply (child_update_ready (now st0 + 1) st0 n pk cn); auto.
     + apply Inv_out. exact HI.
@@ -880,7 +880,7 @@ Proof.
 Qed.
 
 Lemma clauses_from_true K : 0 <= K -> forall ops st i, Inv (now st + 1) st ->
-  forallb (fun c => snd c) (clauses_from K st (obs_of K st) i ops (run_from K st ops)) = true.
+  forallb (fun c => snd c) (clauses_from_nf K st (obs_of K st) i ops (run_from_nf K st ops)) = true.
 Proof.
   intros HK. induction ops as [|op r IH]; intros st i HI; cbn; [reflexivity|].
   rewrite forallb_app. rewrite clause_op_true by assumption. cbn.
@@ -890,10 +890,10 @@ Qed.
 Definition cfg_wf (cfg : word) : bool := match cfg_K cfg with Some _ => true | None => false end.
 
 Lemma model_trace_holds cfg ops : cfg_wf cfg = true ->
-  exists obs, run cfg ops = Some obs /\ holds_b cfg ops obs = true.
+  exists obs, run_nf cfg ops = Some obs /\ holds_b_nf cfg ops obs = true.
 Proof.
-  unfold cfg_wf, run, holds_b, clauses. destruct (cfg_K cfg) as [K|] eqn:E; [|discriminate].
-  intros _. exists (run_from K init ops). split; [reflexivity|].
+  unfold cfg_wf, run_nf, holds_b_nf, clauses_nf. destruct (cfg_K cfg) as [K|] eqn:E; [|discriminate].
+  intros _. exists (run_from_nf K init ops). split; [reflexivity|].
   apply clauses_from_true.
   - unfold cfg_K in E. destruct cfg as [|k [|]]; try discriminate.
     destruct ((1 <=? k) && (k <=? 16)) eqn:E2; [|discriminate]. injection E as <-.
@@ -903,23 +903,23 @@ Qed.
 
 (* ---------- statements used by props/C39.v ---------- *)
 
-Lemma ready_closes_lower K ops n pk : let st := final K init ops in
+Lemma ready_closes_lower K ops n pk : let st := final_nf K init ops in
   closed st = false -> is_started st n = true ->
-  let st' := step K st [2; n; READY; pk] in
+  let st' := step_nf K st [2; n; READY; pk] in
   forall m, In m (after n (prios st')) -> is_started st' m = false.
 Proof.
   intros st Hcl Hst st' m Hm. pose proof (reach_inv K ops) as HI. fold st in HI.
   unfold is_started in Hst. destruct (children st n) as [cn|] eqn:Hcn; [|discriminate].
   set (st0 := mkst (now st) (closed st) (inuse st) (prios st) (children st) (parent st) []).
-  assert (E : st' = child_update st0 n READY pk).
-  { unfold st', step, st0. rewrite Hcl. reflexivity. }
+  assert (E : st' = child_update_nf st0 n READY pk).
+  { unfold st', step_nf, st0. rewrite Hcl. reflexivity. }
   rewrite E in Hm |- *.
   apply (child_update_ready (now st0 + 1) st0 n pk cn); auto.
   - apply Inv_out. exact HI.
   - unfold initTimeout. lia.
 Qed.
 
-Lemma started_implies_higher_failed K ops m : let st := final K init ops in
+Lemma started_implies_higher_failed K ops m : let st := final_nf K init ops in
   closed st = false -> is_started st m = true ->
   forall h, In h (before m (prios st)) ->
   exists c, children st h = Some c /\ started c = true /\ timer c = None /\
@@ -941,7 +941,7 @@ Proof.
     destruct (Hpost m Hin) as [c' [Hc' Hs']]. congruence.
 Qed.
 
-Lemma closed_nothing_built K ops n : let st := final K init ops in
+Lemma closed_nothing_built K ops n : let st := final_nf K init ops in
   closed st = true -> is_started st n = false.
 Proof.
   intros st Hcl. destruct (reach_inv K ops) as [_ _ _ Hclosed _]. fold st in Hclosed.
